@@ -52,3 +52,9 @@ Theorem C01_alternatives_outcome : forall d s p acc egr,
   (exists reason, alternatives d (conn_set d s) p acc egr = NoRouting reason).
 Proof. exact alternatives_outcome. Qed.
 Print Assumptions C01_alternatives_outcome.
+
+(* the full statement, assembled *)
+From TrV Require Import Proofs.Assemble.
+Theorem C01_full : C01_full_statement.
+Proof. exact C01_assembled. Qed.
+Print Assumptions C01_full.
